@@ -65,6 +65,13 @@ def make_source(ctype, cid, rng, tier):
     import nasim
     if ctype == "synth":
         sp = synth.synth(rng, tier)
+        plain = [a for a in sp.addrs if a not in sp.sensitive]
+        if plain and rng.random() < 0.2:
+            # an ordinary host worth more than every sensitive one (and than
+            # every other number that appears in an observation)
+            sp.hosts[rng.choice(plain)]["value"] = rng.choice(
+                [150.0, 1000.5, 33554432.0])
+            sp._derive()
         return sp, dict(route=sp.origin.split(":")[1])
     if ctype == "shipped":
         return corpus.shipped_spec(cid), dict(route="yaml")
